@@ -357,23 +357,19 @@ def r17d(ctx):
     f = m.method(q, "tighten_bounds")
     # the region of the rule: tighten_bounds and the methods of the class it calls (as statements or for their value), two
     # levels deep; a clear in a helper is judged under the helper's own conditions plus those of its only call site
-    region, seen, frontier = [(f, [])], {"tighten_bounds"}, [(f, [])]
+    region, frontier = [(f, [])], [(f, [], ("tighten_bounds",))]
     for _ in range(2):
         nxt = []
-        for g, gfacts in frontier:
-            sites = {}
+        for g, gfacts, chain in frontier:
             for c in walk_no_nested(g.node):
-                if isinstance(c, ast.Call) and self_attr(c.func):
-                    sites.setdefault(self_attr(c.func), []).append(c)
-            for hname, cs in sorted(sites.items()):
-                h = m.method(q, hname)
-                if h is None or hname in seen:
+                hname = self_attr(c.func) if isinstance(c, ast.Call) else None
+                h = m.method(q, hname) if hname else None
+                if h is None or hname in chain:
                     continue
-                seen.add(hname)
-                hf = gfacts + [ast.unparse(t).replace(" ", "") for t, pol in flatten_conditions(dominating_conditions(cs[0])) if pol] \
-                    if len(cs) == 1 else []
+                # one entry per call site: a helper called from several places is judged under each site's conditions
+                hf = gfacts + [ast.unparse(t).replace(" ", "") for t, pol in flatten_conditions(dominating_conditions(c)) if pol]
                 region.append((h, hf))
-                nxt.append((h, hf))
+                nxt.append((h, hf, chain + (hname,)))
         frontier = nxt
     clears = [(c, gf) for g, gf in region for c in walk_no_nested(g.node)
               if isinstance(c, ast.Call) and isinstance(c.func, ast.Attribute) and c.func.attr == "clear"
